@@ -1,6 +1,7 @@
 from __future__ import annotations
 
 import io
+from collections import ChainMap
 from contextlib import contextmanager
 from enum import Enum
 from functools import lru_cache, wraps
@@ -254,6 +255,7 @@ class StructureMetaType(MetaType):
 
         result = {}
         sizes = {}
+        context = result
         for field in cls.__fields__:
             offset = stream.tell()
 
@@ -280,10 +282,14 @@ class StructureMetaType(MetaType):
 
             bit_buffer.reset()
 
-            value = field.type._read(stream, result)
+            value = field.type._read(stream, context)
 
             sizes[field._name] = stream.tell() - offset
             result[field._name] = value
+
+            if field.name is None and isinstance(field.type, StructureMetaType):
+                # The fields of an anonymous member are fields of this structure to the expressions of later fields
+                context = ChainMap(context, _anonymous_values(field.type, value))
 
         if cls.__align__:
             # Align the stream (tail padding, relative to the start of the structure)
@@ -473,6 +479,7 @@ class UnionMetaType(StructureMetaType):
             offset = 0
             buf = io.BytesIO(stream.read(cls.size))
 
+        context = result
         for field in cls.__fields__:
             field_type = cls.cs.resolve(field.type)
 
@@ -481,10 +488,13 @@ class UnionMetaType(StructureMetaType):
                 start = field.offset
 
             buf.seek(offset + start)
-            value = field_type._read(buf, result)
+            value = field_type._read(buf, context)
 
             sizes[field._name] = buf.tell() - offset - start
             result[field._name] = value
+
+            if field.name is None and isinstance(field_type, StructureMetaType):
+                context = ChainMap(context, _anonymous_values(field_type, value))
 
         return result, sizes
 
@@ -652,6 +662,16 @@ class UnionProxy:
     def __setattr__(self, attr: str, value: Any) -> None:
         setattr(self.__target__, attr, value)
         self.__union__._rebuild(self.__attr__)
+
+
+def _anonymous_values(type_: StructureMetaType, value: Structure) -> dict[str, Any]:
+    """The fields of an anonymous structure member by name, including those of its own anonymous members."""
+    values = {}
+    for field in type_.__fields__:
+        values[field._name] = member = getattr(value, field._name)
+        if field.name is None and isinstance(field.type, StructureMetaType):
+            values.update(_anonymous_values(field.type, member))
+    return values
 
 
 def _continues_unit(field: Field, bit_buffer: BitBuffer) -> bool:
